@@ -405,13 +405,17 @@ func c01Case(c *core.Ctx, p *dyn.PairOps, sh c01shape, r *core.Rand, caseID stri
 	for vi, lens := range lensVariants() {
 		a := mon.NewArena(B, sh.ch, sh.k, vi+3)
 		w := a.Window(sh.s, sh.e, 0, 0)
-		ss := A.MakeSS(lens)
+		// each row is the front of a longer array whose tail holds non-zero data
+		ss, ssFull := A.MakeSSRowHidden(lens, 4)
 		var want [][]dyn.Val
 		for ci := range lens {
 			var row []dyn.Val
 			for i := 0; i < lens[ci]; i++ {
 				ss.At(ci).Set(i, commonVal(r, A.TypeInfo, B.TypeInfo))
 				row = append(row, ss.At(ci).Get(i))
+			}
+			for i := max(lens[ci], 0); lens[ci] >= 0 && i < ssFull.At(ci).Len(); i++ {
+				ssFull.At(ci).Set(i, A.FromInt(int64(7+i%5))) // behind the end of the row
 			}
 			want = append(want, row)
 		}
